@@ -77,3 +77,13 @@ NATIVE['n_c04_casm_steps'] = dict(
     bound='Sierra corpus (as n_c17_casm_paths): every start-to-exit path of the code emitted for every invocation statement with a statement-independent cost',
     functions=[('crates/cairo-lang-sierra-to-casm/src/compiler.rs', None, 'compile')],
 )
+NATIVE['n_trace_corpus'] = dict(
+    crate='cairo-lang-runner',
+    host='crates/cairo-lang-runner/src/lib.rs',
+    harness='native/cairo-lang-runner/n_trace_corpus.rs',
+    props={'C04', 'C17'},
+    bound='11 Cairo programs (recursion, arrays, dictionaries, hashes, integer arithmetic, EC, enums/boxes, byte arrays, panics, locals, circuits) '
+          'x 1-5 functions x <= 3 (quick) / all (thorough) inputs x {linear, equation} solvers, run on the VM',
+    functions=[('crates/cairo-lang-runner/src/lib.rs', 'impl SierraCasmRunner', 'run_function_with_starknet_context'),
+               ('crates/cairo-lang-sierra-to-casm/src/compiler.rs', None, 'compile')],
+)
